@@ -565,3 +565,44 @@ chain_id_to_resnode = FunctionContract(
             ("self.__chain_id_to_resnode[(chain_key, resid_key)] = resnode", "self.__chain_id_to_resnode[(chain_key, resid_key)] = 0")],
 )
 CONTRACTS.append(chain_id_to_resnode)
+
+
+# ------------------------------------------------------------------ ComputeStructuralGoBias.run_molecule: the three steps chained
+def setup_go_run(cx):
+    from pyvc.builtins import list_append
+    molecule, rg, contacts = Obj('Molecule'), Obj('res_graph'), Obj('contacts')
+    CALLS = cx.heap('CALLS', cx.box('CALLS', TSeq(TStr)))
+    cx.spec_env.update(MOLECULE=molecule, RES_GRAPH=rg)
+
+    def mrg(e, m):
+        e.oblige(m is molecule, 'residue-graph:of-this-molecule')
+        list_append(e, CALLS, 'make_residue_graph')
+        return rg
+
+    def selector(e, m):
+        e.oblige(m is molecule and self.attrs.get('res_graph') is rg, 'contact_selector:on-this-molecule-with-its-residue-graph')
+        list_append(e, CALLS, 'contact_selector')
+        return contacts
+
+    def compute(e, c):
+        e.oblige(c is contacts, 'compute_go_interaction:of-the-selected-contacts')
+        list_append(e, CALLS, 'compute_go_interaction')
+    cx.spec_env['make_residue_graph'] = Builtin(mrg, 'make_residue_graph')
+    self = Obj('ComputeStructuralGoBias', res_graph=None, contact_selector=Builtin(selector, 'self.contact_selector'),
+               compute_go_interaction=Builtin(compute, 'self.compute_go_interaction'))
+    return dict(self=self, molecule=molecule)
+
+
+go_run_molecule = FunctionContract(
+    FG, 'ComputeStructuralGoBias.run_molecule', 'C18', setup=setup_go_run,
+    requires=["len(old(CALLS)) == 0"],
+    ensures=[
+        # the residue graph of this molecule is built first, the contacts are selected on this molecule with that residue graph, and
+        # the Go interactions are computed from exactly those contacts (the three parts are proved above / under C19)
+        "result is MOLECULE and self.res_graph is RES_GRAPH",
+        "len(CALLS) == 3 and CALLS[0] == 'make_residue_graph' and CALLS[1] == 'contact_selector' and CALLS[2] == 'compute_go_interaction'",
+    ],
+    modifies=['CALLS', 'self.res_graph'],
+    canary=[("self.compute_go_interaction(contacts)", "pass"), ("self.res_graph = make_residue_graph(molecule)", "res_graph = make_residue_graph(molecule)")],
+)
+CONTRACTS.append(go_run_molecule)
